@@ -117,6 +117,10 @@ without the F1 repair. All runs: exit 1 with VIOLATION lines. mainchain/blockcha
   seeded-f-create2-mints-gas          kvm opCreate2: UseGas(gas - gas/64) while Create2 still gets    pass        caught  path=ApplyTransaction tx=call-factory/ok oracle={exact-gas-figure (any gas limit), frame-gas-not-minted
                                       the full gas: every CREATE2 mints gas/64                                            (any limit), gas-used-le-limit, gas-pool-delta, sender-pays-value-plus-fee, conservation (8M, 20M)}
                                       (MISSED before the factory family existed: the alphabet had CREATE but no CREATE2 opcode anywhere, and no gas limit above 5*10^6)
+  seeded-g-create-collision-keeps-    kvm create(): caller nonce bump moved behind the address        pass        caught  path=ApplyTransaction tx=create/failed oracle=sender-nonce-plus-one; tx=call-factory/ok oracle=creator-nonce-advances;
+  nonce                               collision check                                                                      path=commitBlock block={executed-only,with-rejected} oracle=sender-nonce-plus-one, oracle=tx-executed-at-most-once;
+                                                                                                                          blocks=same-tx-in-consecutive-blocks oracle={executed-tx-not-executed-again, executed-tx-not-charged-again}
+                                      (MISSED before the collision family existed: no world in which CreateAddress(sender, nonce) or a factory's derived address was occupied, no CREATE2 with a repeated salt)
   (not a mutant) F1 repair            commitBlock restores the pool / TransitionDb returns the gas    -           exit 0  none
 
 9 of 9 mutants survive the repository's own tests of the touched package; every one is caught by the quick tier.
@@ -126,6 +130,7 @@ Signature format
     C09|path=ApplyTransaction|reject=<class>|oracle=<state-unchanged|gas-pool-unchanged|state-unchanged-after-revert|rejected-reports-nothing>
     C09|path=commitBlock|block=<empty|executed-only|with-rejected>|oracle=<id>
     C09|path=commitBlock|reject=<class of the first rejected tx>|oracle=<gas-pool-restored|state-as-if-absent>
+    C09|path=commitBlock|blocks=same-tx-in-consecutive-blocks|oracle=<executed-tx-not-executed-again|executed-tx-not-charged-again>
   class in {nonce-too-low, nonce-too-high, insufficient-funds-for-gas, block-gas-exhausted, intrinsic-gas,
   insufficient-funds-for-transfer}. Each signature's replay case is the smallest failing point in enumeration order.
 
@@ -141,6 +146,6 @@ Not covered from the DESIGN.md section
     re-implement it;
   - "call C_j (j<i)" is concretised as CALL into each of the 9 one-action leaf contracts (call depth 2; depth 3 only through
     STATICW -> leaf); calls into longer programs are not enumerated;
-  - blocks are enumerated over a 22-entry menu, not over the full transaction product; block programs are three fixed ones;
+  - blocks are enumerated over a 24-entry menu, not over the full transaction product; block programs are three fixed ones;
   - rejected points are not repeated for creations with init codes of >= 2 actions and calls into programs of 3 actions.
 */
